@@ -820,6 +820,22 @@ func (f *frame) appendOp(s, t Val, pos string) Val {
 		tgt := vc.Def("app.tgt", "Int", Ite(Or(fits, noop), s.Fs[0].S, freshBase))
 		arr := Ite(noop, dst0, Ite(fits, inplace, fresh))
 		h.set(f.st, key, sort, Store(cur, tgt, arr))
+		if x.top == nil || !x.top.hasFlag("append-lemmas") {
+			continue
+		}
+		// (flag append-lemmas on the unit under verification)
+		// Consequences of the two definitions above, stated over the result heap so that
+		// the solvers have ground terms to instantiate invariants with: the first appended
+		// element, and the preserved prefix.
+		nh := h.get(f.st, key, sort)
+		roff := Ite(Or(fits, noop), s.Fs[1].S, "0")
+		f.assume(Implies(app(">=", tl, "1"), Eq(Select(Select(nh, tgt), app("+", roff, sl)), Select(src, t.Fs[1].S))))
+		q3 := sym(vc.fresh("i"))
+		f.assume("(forall ((" + q3 + " Int)) (! " + Implies(And(app("<=", s.Fs[1].S, q3), app("<", q3, app("+", s.Fs[1].S, sl))),
+			Eq(Select(Select(nh, tgt), app("+", roff, app("-", q3, s.Fs[1].S))), Select(dst0, q3))) + " :pattern (" + Select(dst0, q3) + ")))")
+		q4 := sym(vc.fresh("i"))
+		f.assume("(forall ((" + q4 + " Int)) (! " + Implies(And(app("<=", t.Fs[1].S, q4), app("<", q4, app("+", t.Fs[1].S, tl))),
+			Eq(Select(Select(nh, tgt), app("+", roff, app("+", sl, app("-", q4, t.Fs[1].S)))), Select(src, q4))) + " :pattern (" + Select(src, q4) + ")))")
 	}
 	res := h.mkSlice(s.T,
 		Ite(Or(fits, noop), s.Fs[0].S, freshBase),
